@@ -48,12 +48,13 @@ Assets == [
   sempty  |-> Asset("song", FALSE, {}, {}, 0, 0, 0),
   sbadtrk |-> Asset("song", FALSE, {}, {}, 0, 0, 0),      \* well-formed header and first track, unparsable second track
   sbadvlq |-> Asset("song", FALSE, {}, {}, 0, 0, 0),      \* ... second track starts with an endless delta time
+  srsxx   |-> Asset("song", TRUE, {}, {}, 1, 0, 0),       \* EA-MUS/RSXX song: loading it forces 2 chips and LOCKS the setup (setNumChips & co. store but do not apply)
   unk     |-> Asset("none", FALSE, {}, {}, 0, 0, 0),      \* (state after a load rejected in the middle: nothing is predicted)
   missing |-> Asset("path", FALSE, {}, {}, 0, 0, 0),
   dir     |-> Asset("path", FALSE, {}, {}, 0, 0, 0),
   none    |-> Asset("none", FALSE, {}, {}, 0, 0, 0) ]
 BankAssets == {"b1", "b2", "bgarb", "btrunc", "bempty"}
-SongAssets == {"s1", "s2", "sgarb", "strunc", "sempty", "sbadtrk", "sbadvlq"}
+SongAssets == {"s1", "s2", "sgarb", "strunc", "sempty", "sbadtrk", "sbadvlq", "srsxx"}
 RejectedMidway == {"sbadtrk", "sbadvlq"}
 
 Rep(n, x) == [i \in 1..n |-> x]
@@ -216,13 +217,13 @@ Ret(S, ev) ==
   ELSE IF NullDev(S, ev) THEN (IF ev.e \in DOMAIN NullRet THEN NullRet[ev.e] ELSE NoPred)
   ELSE CASE ev.e = "setNumChips" -> IF ChipsValid(ev.n) THEN 0 ELSE -1
     [] ev.e = "getNumChips" -> S.craw
-    [] ev.e = "getNumChipsObtained" -> S.chips
+    [] ev.e = "getNumChipsObtained" -> IF S.song = "srsxx" THEN NoPred ELSE S.chips       \* locked setup: 2 chips whatever was asked for
     [] ev.e = "getBank" -> IF ~BankIdOk(ev) THEN -1
                            ELSE IF ev.flags % 2 = 0 THEN (IF BankKey(ev) \in S.banks THEN 0 ELSE -1)
                            ELSE IF ev.flags % 4 = 3 /\ BankKey(ev) \notin S.banks THEN NoPred ELSE 0
     [] ev.e = "iterBanks" -> IF S.banks = {} THEN -1 ELSE 0
     [] ev.e = "getAutoArpeggio" -> S.arp
-    [] ev.e = "getVolumeRangeModel" -> S.scale + 1
+    [] ev.e = "getVolumeRangeModel" -> IF S.song = "srsxx" THEN NoPred ELSE S.scale + 1
     [] ev.e = "getChannelAllocMode" -> S.alloc
     [] ev.e \in {"openBankData", "openBankFile"} -> IF AssetOk(ev, "bank") THEN 0 ELSE -1
     [] ev.e \in {"openData", "openFile"} -> IF S.banks # {} /\ AssetOk(ev, "song") THEN 0 ELSE -1
@@ -241,7 +242,8 @@ Ret(S, ev) ==
                                    ELSE IF (ev.opt % 4) \in {1, 2} /\ ~(ev.i >= 0 /\ ev.i < SongOf(S).tracks) THEN -1
                                    ELSE IF ev.opt \notin 0..3 THEN -1 ELSE 0
     [] ev.e = "setChannelEnabled" -> IF ev.i >= 0 /\ ev.i <= 15 THEN 0 ELSE -1
-    [] ev.e = "rt_noteOn" -> IF ChanIdx(ev.ch) >= NMch THEN NoPred ELSE IF ev.v = 0 THEN 0 ELSE IF S.chips < 1 \/ S.banks = {} THEN 0
+    [] ev.e = "rt_noteOn" -> IF ChanIdx(ev.ch) >= NMch \/ S.song = "srsxx" THEN NoPred      \* RSXX mode: a re-struck sounding key is only an after-touch (returns 0)
+                             ELSE IF ev.v = 0 THEN 0 ELSE IF S.chips < 1 \/ S.banks = {} THEN 0
                              ELSE IF SureSnd(S, ChanIdx(ev.ch)) THEN 1 ELSE NoPred
     [] ev.e = "rt_systemExclusive" -> IF ~SxFramed(ev.bytes) THEN 0 ELSE IF Sx[ev.x].eff # "none" THEN 1 ELSE 0
     [] ev.e = "describeChannels" -> 0
